@@ -37,6 +37,8 @@ def mk_align(kind, period):
         from zoneinfo import ZoneInfo
 
         return datetime(2024, 3, 1, 0, 0, 0, tzinfo=ZoneInfo("Europe/Berlin"))
+    if kind == "ancient":
+        return datetime(1601, 1, 1, tzinfo=timezone.utc)  # more than 2**53 microseconds before the run
     if kind == "tz":
         # a time-zone aware align_to in a zone whose UTC offset is not a multiple of the period
         tz = timezone(timedelta(hours=5, minutes=30, seconds=0.25 * period))
@@ -244,6 +246,70 @@ def run_actor_case(period, align_kind, phase_f, lates, sub_at):
     return created, {f"c{cid}": v for cid, v in out.items()}, end_now, n_ds, align, P
 
 
+def run_moving_window_case(period, align_kind, phase_f):
+    """The resampler a MovingWindow creates from ``resampler_config`` (the window's own ``align_to`` is left at its
+    default): what its sink receives is observed by wrapping ``Resampler.add_timeseries`` from the harness."""
+    from frequenz.sdk.timeseries import MovingWindow
+
+    P = timedelta(seconds=period)
+    wall0 = base_wall(align_kind) + timedelta(seconds=phase_f * period)
+    align = mk_align(align_kind, period)
+    out = {"mw": []}
+    orig = Resampler.add_timeseries
+
+    def spy(self, name, source, sink):
+        async def sink2(sample):
+            out["mw"].append(sample.timestamp.astimezone(timezone.utc))
+            await sink(sample)
+
+        return orig(self, name, source, sink2)
+
+    Resampler.add_timeseries = spy
+    try:
+        with virtual_loop(wall=True, wall0=wall0) as loop:
+            src = Broadcast(name="mw-src")
+            mw = MovingWindow(size=5 * P, resampled_data_recv=src.new_receiver(), input_sampling_period=P / 2,
+                              resampler_config=ResamplerConfig(resampling_period=P, align_to=align))
+            created = loop.wall_now()
+            mw.start()
+            loop.settle()
+            H = N_TICKS * period
+            guard = 0
+            while guard < 100:
+                guard += 1
+                t = loop.next_timer()
+                if t is None or t > H + 1e-9:
+                    break
+                loop.set_time(max(loop.time(), t))
+                loop.settle()
+            loop.set_time(H)
+            loop.settle()
+            end_now = loop.wall_now()
+            loop.create_task(mw.stop())
+            loop.settle()
+    finally:
+        Resampler.add_timeseries = orig
+    return created, out, end_now, align, P
+
+
+def mw_shard(args) -> Acc:
+    tier, period, align_kind, phase_f = args
+    acc = Acc()
+    created, out, end_now, align, P = run_moving_window_case(period, align_kind, phase_f)
+    viol = oracle(created, out, end_now, align, P, {"mw": 0})
+    acc.evaluations += 1
+    acc.traces += 1
+    acc.transitions += len(out["mw"])
+    for c in CLAUSES:
+        acc.clauses[c] += 1
+    acc.nontrivial += 1
+    acc.state(repr(("moving-window", period, align_kind, phase_f)))
+    acc.outcome(f"moving-window ticks={len(out['mw'])}")
+    for clause, detail in viol:
+        acc.violation(Violation(clause, {"driver": "moving-window", "period": period, "align": align_kind, "phase": phase_f}, detail))
+    return acc
+
+
 CLAUSES = ["consecutive_timestamps_one_period_apart", "timestamps_aligned_to_align_to", "first_timestamp_within_two_periods_of_creation",
            "series_resampled_together_share_timestamps", "no_tick_skipped_or_duplicated_for_good",
            "first_timestamp_one_period_after_creation_when_unaligned"]
@@ -326,6 +392,8 @@ def actor_shard(args) -> Acc:
 
 
 def _dispatch(args):
+    if args[0] == "mw":
+        return mw_shard(args[1:])
     return actor_shard(args[1:]) if args[0] == "actor" else shard(args)
 
 
@@ -335,6 +403,13 @@ def run(tier: str, seed: int, workers: int):
         for align_kind in ("none", "epoch", "epoch+quarter", "tz"):
             for phase_f in (0.0, 0.0004, 1.0 / 3.0, 0.75):
                 shards.append(("actor", tier, period, align_kind, phase_f))
+    for period in (1.0, 2.0):
+        for align_kind in ("epoch", "epoch+quarter", "tz"):
+            for phase_f in (0.0, 1.0 / 3.0):
+                shards.append(("mw", tier, period, align_kind, phase_f))
+    for period in (1.0, 7.0):
+        for phase_f in (0.0, 0.000401, 1.0 / 3.0):  # 401 us: an odd number of microseconds since 1601
+            shards.append((tier, period, "ancient", phase_f))
     for period in (1.0, 2.0, 7.0):  # 7 s does not divide a day
         for align_kind in ("none", "epoch", "epoch+quarter", "future", "tz", "dst"):
             if period == 7.0 and align_kind in ("none", "future"):
@@ -356,7 +431,8 @@ def run(tier: str, seed: int, workers: int):
         "1 (quick: plus selected pairs) / 2 (thorough) deviations among: timer wake-up k late by 0.3 / 1 / 1.5 / 3.2 periods, sink call k "
         "taking 0.5 / 1 / 2.5 periods; horizon 10 periods; non-trivial = at least one deviation; plus the real "
         "ComponentMetricsResamplingActor (subscriptions through its request channel, before the first tick or after tick k; outputs read "
-        "from the registry channels) for 32 configurations x timer-lateness sets",
+        "from the registry channels) for 32 configurations x timer-lateness sets; plus an align_to of 1601-01-01 (more than 2**53 us away) with "
+        "an odd-microsecond creation instant; plus the Resampler a MovingWindow builds from resampler_config (12 configurations)",
         "assumptions": [
             "resample() is re-invoked whenever it returns or raises, as ComponentMetricsResamplingActor does (an IndexError raised when a "
             "series is added while a gather over slow sinks is in flight is counted, not flagged)",
@@ -369,6 +445,9 @@ def run(tier: str, seed: int, workers: int):
 
 
 def replay(case: dict):
+    if case.get("driver") == "moving-window":
+        created, out, end_now, align, P = run_moving_window_case(case["period"], case["align"], case["phase"])
+        return oracle(created, out, end_now, align, P, {"mw": 0})
     if case.get("driver") == "actor":
         sub_at = {int(k): v for k, v in case["sub_at"].items()}
         created, out, end_now, n_ds, align, P = run_actor_case(case["period"], case["align"], case["phase"],
